@@ -120,6 +120,24 @@ func cmdVerify(args []string) {
 	}
 	sort.Strings(keys)
 	bad := 0
+	for _, lm := range cs.Lemmas {
+		if *fn != "" && !strings.Contains("lemma."+lm.Name, *fn) {
+			continue
+		}
+		r := VerifyLemma(prog, cs, lm)
+		if r.Err != nil {
+			fmt.Printf("ENGINE-ERROR %s: %v\n", r.Func, r.Err)
+			bad++
+			continue
+		}
+		SolveAll([]*Unit{r.Unit}, dir, *to, 6)
+		for _, o := range r.Unit.Obls {
+			fmt.Printf("%s: [%s] %q (%s %.2fs)\n", r.Func, o.Status, o.Text, o.Solver, o.TimeS)
+			if o.Status != "proved" {
+				bad++
+			}
+		}
+	}
 	for _, k := range keys {
 		fc := cs.Funcs[k]
 		f, ok := prog.Funcs[k]
